@@ -518,12 +518,13 @@ func (p *Parser) parseBuffer(buf []byte, last bool) (err error) {
 				if digitMap[b] != numDigit {
 					break
 				}
-				p.num.Frac = p.num.Frac*10 + uint64(b-'0')
-				p.num.Div *= 10.0
-				if gen.BigLimit <= p.num.Div {
-					p.num.FillBig()
+				if gen.BigLimit < p.num.Div {
+					// The same limit as Number.AddFrac.
+					p.num.AddFrac(b)
 					break
 				}
+				p.num.Frac = p.num.Frac*10 + uint64(b-'0')
+				p.num.Div *= 10.0
 			}
 			off += i
 			if digitMap[b] == numDigit {
